@@ -195,6 +195,11 @@ R = [
     ("{T} = [{S}] if c0 else ({S},)", 0),
     ("{T} = {S}\n{S} = 'reassigned'", 0),
     ("del {S}\n{T} = 1", 0),
+    # class tests whose tuple spec has a member that is only known at run time, in each position
+    ("_k = A if c1 else C\nif isinstance({S}, (_k, int)):\n  {T} = {S}\nelse:\n  {T} = None", 1),
+    ("_k = A if c1 else C\nif isinstance({S}, (str, _k, list)):\n  {T} = {S}\nelse:\n  {T} = 0", 0),
+    ("_k = A if c1 else C\nif isinstance({S}, (int, _k)):\n  {T} = {S}\nelse:\n  {T} = None", 0),
+    ("_k = A if c1 else C\n{T} = type({S})\nif issubclass({T}, (_k, int, str)):\n  {T} = {S}", 0),
     # in-place mutation of a container whose contents pytype knows, then a constant subscript
     ("try:\n  {S}.reverse()\n  {T} = {S}[0]\nexcept (AttributeError, TypeError, IndexError, KeyError):\n  {T} = None", 1),
     ("try:\n  {S}.pop()\n  {T} = {S}[-1]\nexcept (AttributeError, TypeError, IndexError, KeyError):\n  {T} = None", 0),
